@@ -1394,6 +1394,22 @@ def run(ctx):
                 # quick tier: lambda bodies only up to the full-grammar bound (a lambda body is a value context like the yielded
                 # expression, and most lambdas with jumps are rejected with DecompileError) — keeps the engine under a minute on a loaded machine
                 for kind in (('cond', 'elt', 'lam') if ctx.thorough else ('cond', 'elt')): programs.append(prog_of(kind, e))
+        # directed family: `is None` / `is not None` (POP_JUMP_IF_NONE / POP_JUMP_IF_NOT_NONE) applied to every control-flow expression,
+        # combined with one more boolean operator at every operand position
+        none_k = ctx.scale(4, 5)
+        shapes.__defaults__[0].clear()
+        n_none = 0
+        z, w = ('a', 'z'), ('a', 'w')
+        for n in range(1, none_k + 1):
+            for e in enumerate_exprs(n, 4):
+                for test in ('isnone', 'isnotnone'):
+                    N = (test, e)
+                    combos = [N, ('or', N, z), ('and', N, z)]
+                    for kind in ('elt', 'lam'):
+                        for c in combos: programs.append(prog_of(kind, c)); n_none += 1
+                    combos += [('or', z, N), ('and', z, N), ('not', N), ('or3', N, z, w), ('or3', z, N, w), ('or3', z, w, N),
+                               ('and3', N, z, w), ('and3', z, N, w), ('and3', z, w, N), ('ife', N, z, w), ('or', ('not', N), z)]
+                    for c in combos: programs.append(prog_of('cond', c)); n_none += 1
         # constant operands (True / None / ints) of not, and/or, if-else, ==, f(.): CPython folds them away and leaves degenerate jumps
         lit_k = ctx.scale(4, 5)
         shapes.__defaults__[0].clear()
@@ -1409,7 +1425,7 @@ def run(ctx):
     n_enum = len(programs)
     for _ in range(ctx.scale(200, 6000)):
         programs.append(rand_program(ctx.rng))
-    ctx.extra['enumerated'] = {'full_grammar_up_to_size': full_k, 'control_flow_grammar_up_to_size': cf_k, 'constant_operand_grammar_up_to_size': lit_k, 'programs_with_constant_operands': n_lit, 'programs_enumerated': n_enum, 'random_programs': len(programs) - n_enum}
+    ctx.extra['enumerated'] = {'full_grammar_up_to_size': full_k, 'control_flow_grammar_up_to_size': cf_k, 'none_test_family_over_control_flow_up_to_size': none_k, 'programs_in_none_test_family': n_none, 'constant_operand_grammar_up_to_size': lit_k, 'programs_with_constant_operands': n_lit, 'programs_enumerated': n_enum, 'random_programs': len(programs) - n_enum}
     size = 4000 if interpreted else max(100, len(programs) // 96)
     work = [(cmd, LEAN, c) for c in chunks(programs, size)]
     procs = 4 if interpreted else 16
